@@ -71,7 +71,14 @@ def c17_witness(role):
         return [({"source": ".r = exists(.a)\n.after = true\n", "event": {"a": 5}, "faults": {"get": [1]}}, {"outcome": "ok", "event_eq": {"r": {"Boolean": False}}, "event_has": ["after"]}, {})]
     if "stdlib::del" in role:
         return [({"source": ".r = del(.a)\n.after = true\n", "event": {"a": 5}, "faults": {"remove": [0]}},
-                 {"outcome": "ok", "event_eq": {"r": "Null", "a": {"Integer": "5"}}, "event_has": ["after"]}, {})]
+                 {"outcome": "ok", "event_eq": {"r": "Null", "a": {"Integer": "5"}}, "event_has": ["after"]}, {}),
+                # a transient rejection (only the first removal fails), with and without compaction, event and metadata
+                ({"source": ".r = del(.a.b, compact: true)\n.after = true\n", "event": {"a": {"b": 5}}, "faults": {"remove": [0]}},
+                 {"outcome": "ok", "event_eq": {"r": "Null", "a": {"Object": {"b": {"Integer": "5"}}}}, "event_has": ["after"]}, {}),
+                ({"source": ".r = del(.a.b, compact: false)\n.after = true\n", "event": {"a": {"b": 5}}, "faults": {"remove": [0]}},
+                 {"outcome": "ok", "event_eq": {"r": "Null", "a": {"Object": {"b": {"Integer": "5"}}}}, "event_has": ["after"]}, {}),
+                ({"source": "%m.n = 5\n.r = del(%m.n, compact: true)\n.after = true\n", "event": {}, "faults": {"remove": [0]}},
+                 {"outcome": "ok", "event_eq": {"r": "Null"}, "event_has": ["after"]}, {})]
     if "Query[External]" in role:
         spec = {"source": ".out = .a\n.after = true\n", "event": {"a": 5}, "faults": {"get": [1]}}
         exp = {"outcome": "ok", "event_has": ["after", "out"], "event_eq": {"out": "Null", "a": {"Integer": "5"}}}
